@@ -347,7 +347,9 @@ def gen_dw_case(ctx, thorough):
             "version": r.choice(DW_VERSION_MIX), "rebalancing": r.random() < 0.25, "boundary": boundary, "modified": modified,
             "margin": r.choice([0.9, 0.9, 0.6]), "estimator": est, "seed": r.randrange(10 ** 9),
             "power": r.choice([1, 3, 6]), "rounds": [r.randint(1, 2) for _ in range(nstops)],
-            "per_level": 2 if not thorough else 3, "peak": [r.randint(1, 15) / 16 for _ in range(dim)], "sharp": r.choice([4, 40, 400])}
+            "per_level": 2 if not thorough else 3, "peak": [r.randint(1, 15) / 16 for _ in range(dim)], "sharp": r.choice([4, 40, 400]),
+            # scripted estimator only: every stop's result [3] comes from evaluate_final_combi()
+            "reeval": est == "scripted" and r.random() < 0.3}
 
 
 def gen_dwcorner_case(ctx, thorough):
@@ -494,7 +496,7 @@ def run_dw(ctx, drv, case):
                 if case["estimator"] == "scripted":
                     ec.stop_round = target
                     if stop == 0:
-                        res = sa.performSpatiallyAdaptiv(lmin, lmax, ec, tol=1e-300, print_output=False)
+                        res = sa.performSpatiallyAdaptiv(lmin, lmax, ec, tol=1e-300, print_output=False, reevaluate_at_end=bool(case.get("reeval")))
                     else:
                         res = sa.continue_adaptive_refinement(tol=1e-300)
                 else:
@@ -626,6 +628,28 @@ def oracle_integrals_subset(rec, probe, stop, result, comps, dom, which):
 
 
 # ------------------------------------------------------------------------------------------------ extend-split
+def finish_with_reevaluation(rec, probe, sa, op, comps, dom, orig_refine):
+    """the adaptive run was interrupted right after an evaluation: finish it through the public API with a tolerance that
+    is met immediately; with reevaluate_at_end=True the returned [3] comes from evaluate_final_combi(); then call
+    evaluate_final_combi() directly once more (re-evaluation from scratch must be idempotent)"""
+    try:
+        with quiet():
+            sa.refine = orig_refine
+            sa.reevaluate_at_end = True
+            res = sa.continue_adaptive_refinement(tol=1e300)
+        oracle_integrals(rec, probe, "reevaluate_at_end", np.asarray(res[3], dtype=float), comps, dom)
+        if rec.ok:
+            with quiet():
+                res2, _ = sa.evaluate_final_combi()
+            oracle_integrals(rec, probe, "evaluate_final_combi", np.asarray(res2, dtype=float), comps, dom)
+        rec.ctx.count("reevaluations")
+    except Exception as e:
+        import traceback
+        where = traceback.extract_tb(e.__traceback__)[-1]
+        rec.violation(probe.split("-")[0] + "-exception", "exception", {"exception": repr(e)[:300], "where": "reevaluate %s:%d" % (where.filename.split("/")[-1], where.lineno)},
+                      {"exception": type(e).__name__})
+
+
 def gen_es_case(ctx, thorough):
     r = ctx.rng
     dim = r.choice([2, 2, 3])
@@ -636,7 +660,10 @@ def gen_es_case(ctx, thorough):
             "version": 0, "automatic_extend_split": r.random() < 0.4, "split_single_dim": r.random() < 0.35,
             "before_extend": r.randint(0, 2), "estimator": r.choice(["scripted", "scripted", "default"]),
             "seed": r.randrange(10 ** 9), "power": r.choice([1, 3, 6]), "rounds": r.randint(2, 4 if not thorough else 6),
-            "peak": [r.randint(1, 15) / 16 for _ in range(dim)], "sharp": r.choice([4, 40, 400])}
+            "peak": [r.randint(1, 15) / 16 for _ in range(dim)], "sharp": r.choice([4, 40, 400]),
+            # recalculate_frequently=True with refinements_for_recalculate lowered to this value (None: off);
+            # reeval: finish with continue_adaptive_refinement(reevaluate_at_end=True) + evaluate_final_combi()
+            "recalc": r.choice([None, None, 1, 2, 3]), "reeval": r.random() < 0.6}
 
 
 def gen_esmulti_case(ctx, thorough):
@@ -781,7 +808,10 @@ def run_es(ctx, drv, case):
     try:
         with quiet():
             try:
-                res = sa.performSpatiallyAdaptiv(lmin, lmax, ec, tol=-1.0, print_output=False)
+                if case.get("recalc"):
+                    sa.refinements_for_recalculate = case["recalc"]
+                res = sa.performSpatiallyAdaptiv(lmin, lmax, ec, tol=-1.0, print_output=False,
+                                                 recalculate_frequently=bool(case.get("recalc")))
                 final = np.asarray(res[3], dtype=float)
             except _Stop:
                 final = None
@@ -830,6 +860,10 @@ def run_es(ctx, drv, case):
             oracle_values(rec, "es-exact", len(snapshots) - 1, pts, vals, comps, dom)
         except Exception as e:
             rec.violation("es-exception", "exception", {"exception": repr(e)[:300], "where": "__call__"}, {"exception": type(e).__name__})
+    if rec.ok and case.get("reeval"):
+        finish_with_reevaluation(rec, "es-exact", sa, op, comps, dom, orig_refine)
+    if case.get("recalc"):
+        ctx.count("es_recalculate_frequently")
     ctx.count("es_auto%d_single%d_before%d" % (case["automatic_extend_split"], case["split_single_dim"], case["before_extend"]))
     ctx.count("es_est_" + case["estimator"])
     ctx.count("es_grid_" + gkind)
@@ -891,7 +925,8 @@ def gen_cell_case(ctx, thorough):
     l = r.choice([1, 2, 2, 3]) if dim == 2 else r.choice([1, 2])
     return {"strategy": "cell", "dim": dim, "lmin": l, "lmax": l, "dom": [list(r.choice(DOMAINS)) for _ in range(dim)],
             "estimator": r.choice(["scripted", "scripted", "default"]), "seed": r.randrange(10 ** 9), "power": r.choice([1, 3, 6]),
-            "rounds": r.randint(2, 5 if not thorough else 8), "peak": [r.randint(1, 15) / 16 for _ in range(dim)], "sharp": r.choice([4, 40, 400])}
+            "rounds": r.randint(2, 5 if not thorough else 8), "peak": [r.randint(1, 15) / 16 for _ in range(dim)], "sharp": r.choice([4, 40, 400]),
+            "recalc": r.choice([None, None, 1, 3]), "reeval": r.random() < 0.7}
 
 
 def run_cell(ctx, drv, case):
@@ -943,7 +978,9 @@ def run_cell(ctx, drv, case):
     try:
         with quiet():
             try:
-                sa.performSpatiallyAdaptiv(lmin, lmax, ec, tol=-1.0, print_output=False)
+                if case.get("recalc"):
+                    sa.refinements_for_recalculate = case["recalc"]
+                sa.performSpatiallyAdaptiv(lmin, lmax, ec, tol=-1.0, print_output=False, recalculate_frequently=bool(case.get("recalc")))
             except _Stop:
                 pass
     except Exception as e:
@@ -968,6 +1005,10 @@ def run_cell(ctx, drv, case):
                 break
         if not rec.ok:
             break
+    if rec.ok and case.get("reeval"):
+        finish_with_reevaluation(rec, "cell-exact", sa, op, comps, dom, orig_refine)
+    if case.get("recalc"):
+        ctx.count("cell_recalculate_frequently")
     ctx.count("cell_est_" + case["estimator"])
     return rec
 
